@@ -1,5 +1,6 @@
 mod codec;
 mod live;
+mod macrofn;
 mod orch;
 mod rng;
 mod sys;
@@ -29,6 +30,7 @@ fn main() {
             None => codec::generate(seed, n, &mut *out),
         },
         "twins" => twins::generate(seed, n, &mut *out),
+        "unescape" => macrofn::generate(seed, n, &mut *out),
         "live" => live::live(seed, n, &mut *out),
         "teardown" => live::teardown(seed, n, &mut *out),
         "longspan" => live::longspan(seed, n, &mut *out),
